@@ -629,11 +629,12 @@ def build_records(run, env: Env, by_sig: dict[str, list[str]]):
             used_sigs.add(pi.sigkey)
             for vc in by_sig[pi.sigkey]:
                 variants = [0]
+                n_bound = {'str': len(LIST_ITEM_CATALOGUE) if pi.kind in ('attrlist', 'textlist') else len(STR_CATALOGUE),
+                           'enum': len(list(pi.enum)) if (pi.stype == 'enum' and pi.enum) else 1, 'int': 3, 'uint': 3, 'ulong': 3, 'dec': 7, 'ts': 3,
+                           'dur': 3, 'qname': 2, 'dob': 3}.get(pi.stype, 1)
                 if thorough:
                     if vc == 'bound':
-                        n = {'str': len(LIST_ITEM_CATALOGUE) if pi.kind in ('attrlist', 'textlist') else len(STR_CATALOGUE), 'enum': len(list(pi.enum)) if pi.enum else 1, 'int': 3,
-                             'uint': 3, 'ulong': 3, 'dec': 4, 'ts': 3, 'dur': 3, 'qname': 2, 'dob': 3}.get(pi.stype, 1)
-                        variants = list(range(n))
+                        variants = list(range(n_bound))
                     elif vc == 'xsi' and pi.kind in ('sub', 'container', 'sublist', 'containerlist'):
                         try:
                             n = len(env.b.xsi_classes(pi)) if pi.kind in ('sub', 'sublist') \
@@ -645,6 +646,8 @@ def build_records(run, env: Env, by_sig: dict[str, list[str]]):
                     variants = [(len(records) * 7 + 3) % len(STR_CATALOGUE)]   # rotate through the catalogue
                     if pi.kind in ('attrlist', 'textlist'):
                         variants = [len(records) % 5, 5]
+                elif vc == 'bound':
+                    variants = [len(records) % n_bound]   # quick tier: rotate through the boundary values of the type
                 for variant in variants:
                     rec = member_record(env, cls, pi, vc, variant)
                     if rec is None:
